@@ -26,6 +26,8 @@ pub struct GCase {
     pub turbofish: bool,
     /// mode 2 only: 0 = `X<'x>`; 1 = the same counterpart-only lifetime twice `X<'x, 'x>`; 2 = two of them `X<'x, 'y>`
     pub lt_form: usize,
+    /// the counterpart is written as a module-qualified path (`self::X<..>`)
+    pub qual: bool,
     pub tags: Vec<String>,
 }
 
@@ -89,7 +91,8 @@ pub fn gen(ctx: &mut Ctx) -> Option<GCase> {
     let own_where = has_ty && ctx.flag();
     let where_instr = if has_ty && mode != 3 { ctx.choose(5) } else { 0 };
     let turbofish = mode != 4 && ctx.flag();
-    let lt_form = if mode == 2 { ctx.choose(3) } else { 0 };
+    let lt_form = if mode == 2 { ctx.choose(4) } else { 0 };
+    let qual = mode != 4 && ctx.flag();
     let mut tags = vec![format!("mode={}", ["mirror", "concrete-args", "counterpart-lifetime", "counterpart-lifetime+own-params", "borrow-from-reference"][mode]), format!("where_instr={}", where_instr), format!("turbofish={}", turbofish)];
     for p in &params {
         tags.push(match p {
@@ -105,11 +108,14 @@ pub fn gen(ctx: &mut Ctx) -> Option<GCase> {
         tags.push("declaration-form-differs-from-argument-form".into());
     }
     if lt_form > 0 {
-        tags.push(format!("counterpart-lifetimes={}", ["once", "same-twice", "two"][lt_form]));
+        tags.push(format!("counterpart-lifetimes={}", ["once", "same-twice", "two", "static"][lt_form]));
+    }
+    if qual {
+        tags.push("qualified-counterpart-path".into());
     }
     tags.sort();
     tags.dedup();
-    Some(GCase { params, own_where, mode, where_instr, turbofish, lt_form, tags })
+    Some(GCase { params, own_where, mode, where_instr, turbofish, lt_form, qual, tags })
 }
 
 impl GCase {
@@ -163,12 +169,17 @@ impl GCase {
         self.params.iter().any(|p| matches!(p, P::Ty { bound: true, .. })) || self.where_instr > 0 || self.own_where
     }
     fn cp_path(&self, twin: bool) -> String {
-        let n = if twin { "Xf" } else { "X" };
+        let n = match (twin, self.qual) {
+            (false, false) => "X",
+            (true, false) => "Xf",
+            (false, true) => "self::X",
+            (true, true) => "self::Xf",
+        };
         let tf = if self.turbofish { "::" } else { "" };
         match self.mode {
             0 => format!("{}{}<{}>", n, tf, self.args()),
             1 => format!("{}{}<i32>", n, tf),
-            2 => format!("{}{}<{}>", n, tf, ["'x", "'x, 'x", "'x, 'y"][self.lt_form]),
+            2 => format!("{}{}<{}>", n, tf, ["'x", "'x, 'x", "'x, 'y", "'static"][self.lt_form]),
             4 => n.to_string(),
             _ => format!("{}{}<'x, {}>", n, tf, self.args()),
         }
@@ -226,6 +237,9 @@ impl GCase {
                 let _ = writeln!(o, "#[ref_into({})]\n#[ref_try_into({}, Er)]", self.cp_path(false), self.cp_path(true));
                 if self.lt_form == 0 {
                     let _ = writeln!(o, "struct S {{ x: i32, #[into(~.as_str())] s: String }}");
+                } else if self.lt_form == 3 {
+                    // X<'static>: nothing borrowed from the source can go there
+                    let _ = writeln!(o, "struct S {{ x: i32, #[into({{ \"fixed\" }})] s: String }}");
                 } else {
                     let _ = writeln!(o, "struct S {{ x: i32, #[into(~.as_str())] s: String, #[into(~.as_str())] s2: String }}");
                 }
@@ -270,7 +284,7 @@ impl GCase {
             }
             2 => {
                 for n in ["X", "Xf"] {
-                    if self.lt_form == 0 {
+                    if self.lt_form == 0 || self.lt_form == 3 {
                         let _ = writeln!(o, "{d} pub struct {}<'x> {{ pub x: i32, pub s: &'x str }}", n);
                     } else {
                         let _ = writeln!(o, "{d} pub struct {}<'x, 'y> {{ pub x: i32, pub s: &'x str, pub s2: &'y str }}", n);
@@ -367,6 +381,9 @@ impl GCase {
                 let xs: Vec<String> = self.params.iter().map(|p| match p { P::Lt(l) => format!("s{}: format!(\"loc{}\")", &l[1..], &l[1..]), _ => String::new() }).collect();
                 let ss: Vec<String> = self.params.iter().map(|p| match p { P::Lt(l) => format!("s{}: \"loc{}\"", &l[1..], &l[1..]), _ => String::new() }).collect();
                 let _ = writeln!(o, "  {{ let x = X {{ x: 1, {} }}; let s = S::from(&x); r.eq(\"from_ref\", &s, &S {{ x: 1, {} }}); let xf = Xf {{ x: 1, {} }}; let s2 = S::try_from(&xf); r.eq(\"try_from_ref\", &s2, &Ok::<_, Er>(S {{ x: 1, {} }})); }}", xs.join(", "), ss.join(", "), xs.join(", "), ss.join(", "));
+            }
+            _ if self.lt_form == 3 => {
+                let _ = writeln!(o, "  {{ let s = S {{ x: 1, s: owned_string.clone() }}; let y: X<'static> = (&s).into(); r.eq(\"ref_into\", &y, &X {{ x: 1, s: \"fixed\" }}); let y2: Result<Xf<'static>, Er> = (&s).try_into(); r.eq(\"try_ref_into\", &y2, &Ok(Xf {{ x: 1, s: \"fixed\" }})); }}");
             }
             _ if self.lt_form > 0 => {
                 let _ = writeln!(o, "  {{ let s = S {{ x: 1, s: owned_string.clone(), s2: owned_string.clone() }}; let y: X = (&s).into(); r.eq(\"ref_into\", &y, &X {{ x: 1, s: \"local\", s2: \"local\" }}); let y2: Result<Xf, Er> = (&s).try_into(); r.eq(\"try_ref_into\", &y2, &Ok(Xf {{ x: 1, s: \"local\", s2: \"local\" }})); }}");
